@@ -147,13 +147,23 @@ func genC39g(t *rapid.T) c39gCase {
 			op.Memo = rapid.SampledFrom([]string{"", "", "memo", `{"dest_callback":{"address":"x"}}`}).Draw(t, "memo")
 			n := rapid.SampledFrom([]int{0, 1, 1, 1, 2, 2, 2, 3, 3, 4}).Draw(t, "nMsgs")
 			// profiles: all-honest payload / honest with exactly one hostile message at a random position / arbitrary
+			// profiles: 0-2 all-honest payload / 3-4 honest and authorized, but one message (any position) fails /
+			// 5-7 honest with exactly one hostile message at a random position / 8-9 arbitrary
 			profile := rapid.IntRange(0, 9).Draw(t, "profile")
 			bad := -1
-			if n > 0 && profile >= 4 && profile <= 7 {
+			if n > 0 && profile >= 3 && profile <= 7 {
 				bad = rapid.IntRange(0, n-1).Draw(t, "badPos")
 			}
 			for j := 0; j < n; j++ {
-				op.Msgs = append(op.Msgs, genGMsg(t, profile < 4 || (profile <= 7 && j != bad)))
+				m := genGMsg(t, profile <= 4 || (profile <= 7 && j != bad))
+				if j == bad && profile <= 4 {
+					if rapid.Bool().Draw(t, "failHow") {
+						m.Big = true
+					} else {
+						m.BadTo = true
+					}
+				}
+				op.Msgs = append(op.Msgs, m)
 			}
 		}
 		c.Ops = append(c.Ops, op)
@@ -435,6 +445,9 @@ func (r *gmpRun) judge(what string, ti int, op gOp, model []modelMsg, pre, post 
 			r.rec.Class("rejected-unauthorized")
 		} else if full == nil {
 			r.rec.Class("rejected-failing-msg")
+			if len(model) >= 2 && !model[0].fails {
+				r.rec.Class("authorized-fails-after-first-msg")
+			}
 		}
 		if ackOK && full != nil && !sameBal(full, pre) {
 			vx.Violatef(r.t, r.rec, c39, "success-ack-without-effects", "%s: success acknowledgement but no message effect; triple %v msgs %+v", what, r.trips[ti], op.Msgs)
